@@ -70,4 +70,21 @@ theorem api_methods_tied {α : Type} (F : FieldOps α) (e : Pt α) (v : Option (
     GenElementAPI.subtract_ev F e = Hand.Element.subtract F e (some e) :=
   ⟨ElementApiTies.add_tie F e v, rfl, rfl, rfl, ElementApiTies.subtract_tie F e v, rfl⟩
 
+/-- **C02 for the methods regenerated from `element.go` on this run**: the group law, with no exceptional case, for every pair
+of valid elements in any representation (identity operands, equal operands, opposite operands, the receiver as its own
+argument), every result again valid -/
+theorem group_law_regenerated (P Q : Pt L4) (hP : Valid P) (hQ : Valid Q) :
+    (Valid (GenElementAPI.add_e_v F P (some Q)) ∧ G (GenElementAPI.add_e_v F P (some Q)) = G P + G Q) ∧
+    (Valid (GenElementAPI.add_ev F P) ∧ G (GenElementAPI.add_ev F P) = G P + G P) ∧
+    (Valid (GenElementAPI.double F P) ∧ G (GenElementAPI.double F P) = G P + G P) ∧
+    (Valid (GenElementAPI.negate F P) ∧ G (GenElementAPI.negate F P) = - G P) ∧
+    (Valid (GenElementAPI.subtract_e_v F P (some Q)) ∧ G (GenElementAPI.subtract_e_v F P (some Q)) = G P - G Q) ∧
+    G (GenElementAPI.subtract_ev F P) = 0 ∧
+    GenElementAPI.add_e_v F P none = P ∧ GenElementAPI.subtract_e_v F P none = P := by
+  obtain ⟨t1, t2, t3, t4, t5, t6⟩ := api_methods_tied F P (some Q)
+  obtain ⟨n1, _, _, _, n5, _⟩ := api_methods_tied F P none
+  rw [t1, t2, t3, t4, t5, t6, n1, n5]
+  exact ⟨add_correct P Q hP hQ, add_self_correct P hP, double_correct P hP, negate_correct P hP,
+    subtract_correct P Q hP hQ, subtract_self P hP, rfl, rfl⟩
+
 end C02
